@@ -46,9 +46,16 @@ def e2e_oracle(chk, r):
     if not r.get("ok"):
         return 0
     od = r["outdir"]
-    with open(os.path.join(od, "SimulationSummary.json")) as f:
+    sfx = r.get("suffix", "")
+    missing = [fn for fn in (f"SimulationSummary{sfx}.json", f"BoreFieldData{sfx}.csv", f"SimulationSummary{sfx}.txt", f"TimeDependentValues{sfx}.csv",
+                             f"Loadings{sfx}.csv", f"Gfunction{sfx}.csv") if not os.path.exists(os.path.join(od, fn))]
+    if missing:
+        chk.violation("summary", r["cfg"], {"suffix": sfx, "missing_files": missing, "present": sorted(os.listdir(od))},
+                      "every result file of a design carries the design's file suffix (the summary and the coordinate table belong together)")
+        return 1
+    with open(os.path.join(od, f"SimulationSummary{sfx}.json")) as f:
         js = json.load(f)
-    with open(os.path.join(od, "BoreFieldData.csv")) as f:
+    with open(os.path.join(od, f"BoreFieldData{sfx}.csv")) as f:
         rows = list(csv.reader(f))[1:]
     gs = js["ghe_system"]
     n = 0
@@ -144,7 +151,14 @@ Eval vm_compute in (length cases, length (filter (fun c => negb (ok c)) cases)).
             cfg("RECTANGLE", "COAXIAL", loads={"kind": "cooling", "scale": 500.0, "seed": 3}, design={"continue_if_design_unmet": True}),
             # one-sided loads: every temperature stays on one side of the undisturbed ground temperature
             cfg(months=12, loads={"kind": "constant", "scale": 24000.0, "seed": 1, "sign": 1.0}),
-            cfg(months=12, loads={"kind": "constant", "scale": 30000.0, "seed": 1, "sign": -1.0})]
+            cfg(months=12, loads={"kind": "constant", "scale": 30000.0, "seed": 1, "sign": -1.0}),
+            # double U-tube (two U-tubes per borehole: drilling is still count x height)
+            cfg("NEARSQUARE", "DOUBLEUTUBEPARALLEL", months=12),
+            # temperature limits that are not round numbers (90 F / 40 F), both violated by the small fields tried first
+            cfg(months=12, loads={"kind": "balanced", "scale": 45000.0, "seed": 6}, design={"max_eft": 32.2222, "min_eft": 4.4444})]
+    sx = cfg("RECTANGLE", months=12)
+    sx["_suffix"] = "_A"
+    cfgs.append(sx)
     if not quick:
         cfgs += [cfg(g, p, months=12) for g in ("BIRECTANGLE", "BIZONEDRECTANGLE", "ROWWISE", "BIRECTANGLECONSTRAINED") for p in ("SINGLEUTUBE", "DOUBLEUTUBESERIES")]
     for r in e2e_runs(cfgs):
